@@ -1542,13 +1542,13 @@ class Session(AbstractSession):
 
         left_to_inner = np.zeros(inner_length, dtype=np.int64)
         right_to_inner = np.zeros(inner_length, dtype=np.int64)
-        if left_unique is False:
-            if right_unique is False:
+        if not left_unique:
+            if not right_unique:
                 ops.ordered_inner_map(left_data, right_data, left_to_inner, right_to_inner)
             else:
                 ops.ordered_inner_map_left_unique(right_data, left_data, right_to_inner, left_to_inner)
         else:
-            if right_unique is False:
+            if not right_unique:
                 ops.ordered_inner_map_left_unique(left_data, right_data, left_to_inner, right_to_inner)
             else:
                 ops.ordered_inner_map_both_unique(left_data, right_data, left_to_inner, right_to_inner)
